@@ -488,4 +488,25 @@ impl Store {
             .map(|(_, s)| (s.id.into(), s.ref_count))
             .collect()
     }
+
+    /// (stream id, queue flags) of the same records: which of the
+    /// connection's queues still hold them (bit 0 pending_send, 1
+    /// pending_capacity, 2 pending_accept, 3 pending_window_update, 4
+    /// pending_open, 5 reset expiration, 6 waiting for its PUSH_PROMISE).
+    pub(super) fn verif_orphan_flags(&self) -> Vec<(u32, u8)> {
+        self.slab
+            .iter()
+            .filter(|(k, s)| self.ids.get(&s.id).map(|i| i.0 as usize) != Some(*k))
+            .map(|(_, s)| {
+                let f = (s.is_pending_send as u8)
+                    | (s.is_pending_send_capacity as u8) << 1
+                    | (s.is_pending_accept as u8) << 2
+                    | (s.is_pending_window_update as u8) << 3
+                    | (s.is_pending_open as u8) << 4
+                    | (s.reset_at.is_some() as u8) << 5
+                    | (s.is_pending_push as u8) << 6;
+                (s.id.into(), f)
+            })
+            .collect()
+    }
 }
